@@ -21,36 +21,31 @@ NPAR = max(2, min(16, vlib.NCPU))
 
 # ----------------------------------------------------------------------------------------------- TLC jobs
 # (name, cfg, nparts, simulate walks or None, depth)
+# A tier is a list of groups; the TLC jobs of a group run concurrently, groups one after the other (memory).
+_Q = [
+    ("mac1", "CPP_mc.cfg", 6, None, None),       # 1 macro of every kind, list <= 3, balanced invocation <= 6: exhaustive
+    ("mac2", "CPP_mc2.cfg", 4, None, None),      # 2 macros (object-like / 1 parameter), lists <= 2, any text <= 3: exhaustive
+    ("macstr", "CPP_str_mc.cfg", 2, None, None), # stringification with literals and variable spacing: exhaustive
+    ("macsim", "CPP_sim.cfg", 2, 2500, 60),      # 2 macros, lists <= 4, text <= 6: random walks
+    ("cond", "CPP_cond_mc.cfg", 1, None, None),  # conditional nestings, 5 directive lines, depth 3: exhaustive
+    ("if1", "CPP_if_mc.cfg", 4, None, None),     # one operator over an 18-value grid: exhaustive
+    ("ifsim", "CPP_if_sim.cfg", 2, 2500, 60),    # depth <= 3 over the full grid: random walks
+]
 TIERS = {
-    "quick": [
-        ("mac1", "CPP_mc.cfg", 3, None, None),
-        ("mac2", "CPP_mc2.cfg", 2, None, None),
-        ("macstr", "CPP_str_mc.cfg", 1, None, None),
-        ("macsim", "CPP_sim.cfg", 2, 2500, 60),
-        ("cond", "CPP_cond_mc.cfg", 1, None, None),
-        ("if1", "CPP_if_mc.cfg", 3, None, None),
-        ("ifsim", "CPP_if_sim.cfg", 2, 2500, 60),
-    ],
+    "quick": [_Q],
     "thorough": [
-        ("mac1", "CPP_mc.cfg", 3, None, None),
-        ("mac2", "CPP_mc2.cfg", 2, None, None),
-        ("macstr", "CPP_str_mc.cfg", 1, None, None),
-        ("mac1t", "CPP_t.cfg", 6, None, None),
-        ("mac2t", "CPP_t2.cfg", 4, None, None),
-        ("macstrt", "CPP_str_t.cfg", 4, None, None),
-        ("macsim", "CPP_sim.cfg", 4, 40000, 60),
-        ("macsim3", "CPP_sim3.cfg", 4, 40000, 60),
-        ("macsimp", "CPP_simp.cfg", 4, 40000, 60),
-        ("cond", "CPP_cond_mc.cfg", 1, None, None),
-        ("condt", "CPP_cond_t.cfg", 8, None, None),
-        ("condsim", "CPP_cond_sim.cfg", 2, 30000, 40),
-        ("if1", "CPP_if_mc.cfg", 3, None, None),
-        ("if1t", "CPP_if_t.cfg", 8, None, None),
-        ("ifsim", "CPP_if_sim.cfg", 8, 60000, 60),
+        _Q,
+        [("mac1t", "CPP_t.cfg", 6, None, None)],
+        [("mac2t", "CPP_t2.cfg", 9, None, None)],
+        [("macstrt", "CPP_str_t.cfg", 4, None, None)],
+        [("macsim", "CPP_sim.cfg", 4, 40000, 60), ("macsim3", "CPP_sim3.cfg", 4, 40000, 60)],
+        [("macsimp", "CPP_simp.cfg", 4, 40000, 60), ("condsim", "CPP_cond_sim.cfg", 2, 30000, 40)],
+        [("condt", "CPP_cond_t.cfg", 8, None, None)],
+        [("if1t", "CPP_if_t.cfg", 16, None, None), ("ifsimt", "CPP_if_sim.cfg", 6, 60000, 60)],
     ],
 }
-SELFTEST_JOBS = [("mac1", "CPP_mc.cfg", 3, None, None), ("cond", "CPP_cond_mc.cfg", 1, None, None),
-                 ("if1", "CPP_if_mc.cfg", 3, None, None)]
+SELFTEST_JOBS = [("mac2", "CPP_mc2.cfg", 4, None, None), ("cond", "CPP_cond_mc.cfg", 1, None, None),
+                 ("if1", "CPP_if_mc.cfg", 4, None, None)]
 
 # finding keys (all specific to one input family; see findings/known-findings.txt)
 K_COND = "cpp:if:cond_expr_signedness"
@@ -351,25 +346,32 @@ def run(tier, jobs=None, mutate=None):
     ck = Check(PROP, tier, "model_checking")
     c2m = build_c2m()
     stats = Stats()
-    t0 = time.time()
-    gen, st, di = gen_cases(jobs or TIERS[tier], stats)
-    t_tlc = time.time() - t0
-    total = 0
-    for name, cases in gen.items():
-        if not cases:
-            raise MachineryError("TLC job %s produced no defined case" % name)
-        cases = add_paren_variants(cases)
-        if mutate:
-            cases = mutate(name, cases)
-        for c in cases:
-            for f in c.get("ft", []):
-                stats.feat[f] += 1
-        nb = judge_batches(c2m, cases, name, stats)
-        total += len(cases)
-        ck.add("cases_" + cases[0]["fam"], len(cases))
-        ck.add("cases_job_" + name, len(cases))
-        ck.sample({"job": name, "case": cases[len(cases) // 2]}, maxn=8)
-        vlib.log("  %-8s %7d cases replayed, %d re-run alone" % (name, len(cases), nb))
+    t_tlc = total = st = di = 0
+    seen_jobs = set()
+    for group in ([jobs] if jobs else TIERS[tier]):
+        group = [j for j in group if j[0] not in seen_jobs or jobs]
+        seen_jobs |= {j[0] for j in group}
+        t0 = time.time()
+        gen, st1, di1 = gen_cases(group, stats)
+        t_tlc += time.time() - t0
+        st += st1
+        di += di1
+        for name, cases in gen.items():
+            if not cases:
+                raise MachineryError("TLC job %s produced no defined case" % name)
+            cases = add_paren_variants(cases)
+            if mutate:
+                cases = mutate(name, cases)
+            for c in cases:
+                for f in c.get("ft", []):
+                    stats.feat[f] += 1
+            nb = judge_batches(c2m, cases, name, stats)
+            total += len(cases)
+            ck.add("cases_" + cases[0]["fam"], len(cases))
+            ck.add("cases_job_" + name, len(cases))
+            ck.sample({"job": name, "case": cases[len(cases) // 2]}, maxn=10)
+            vlib.log("  %-8s %7d cases replayed, %d re-run alone (%.0fs)" % (name, len(cases), nb, time.time() - t0))
+        del gen
     known = collections.Counter()
     for c, e, ga, gb, st1, key in stats.fail:
         txt = "%s: expected %s, c2m %s%s, gcc %s; source: %s" % (
